@@ -173,15 +173,14 @@ func c09Spots(ss *[]*xSel, nested bool, out *[]c09Spot) {
 	}
 }
 
-func c09CycleJob(j c09Job, in *c09Input) *c09Obs {
-	o := &c09Obs{extra: map[string]interface{}{}}
+// the generated document with injected back-edge spreads (deterministic in the job)
+func c09CycleDoc(j c09Job) (s *xSchema, doc *xDoc, g *xGen, injected int, throughField bool) {
 	r := NewRng(j.Seed+99*7919, uint64(j.Idx))
-	s := xGenSchema(r)
+	s = xGenSchema(r)
 	opts := xGenOpts{DynDirPct: 40, DirPct: 15, FragPct: 45, InlinePct: 15, VarArgPct: 15, MaxDepth: 3}
-	doc, g := xGenDoc(r, s, opts)
-	throughField := r.Chance(35)
+	doc, g = xGenDoc(r, s, opts)
+	throughField = r.Chance(35)
 	lit := func(b bool) *xValue { return &xValue{Kind: "bool", B: b} }
-	injected := 0
 	if len(doc.Frags) > 0 {
 		k := 1 + r.Intn(3)
 		for ; k > 0; k-- {
@@ -216,6 +215,12 @@ func c09CycleJob(j c09Job, in *c09Input) *c09Obs {
 			injected++
 		}
 	}
+	return
+}
+
+func c09CycleJob(j c09Job, in *c09Input) *c09Obs {
+	o := &c09Obs{extra: map[string]interface{}{}}
+	s, doc, g, injected, throughField := c09CycleDoc(j)
 	text := doc.text()
 	op := doc.Ops[0].Name
 	inputs := g.inputs(doc.Ops[0])
